@@ -2,3 +2,4 @@
 import Woodpile.Gen.Consts
 import Woodpile.Model.Arena
 import Woodpile.Model.ReadN
+import Woodpile.Model.Stream
